@@ -235,6 +235,13 @@ def run(prog, rep):
     vt = [n for n in pg.nodes if n.kind == "raise" and any("_validate_values(" in t and not p for t, p in
                                                            [(tt, pp) for tt, pp, _ in _xatoms(pg, n, px)])]
     indep = bool(vt) and all(not any(t == "strict" for t, p, _ in _xatoms(pg, n, px)) for n in vt)
+    # ... and whatever the destination holds: an empty destination with a dtype converts the source values just the same
+    for n in vt:
+        extra = [t for t, p, _ in _xatoms(pg, n, px) if "_validate_values(" not in t and not t.startswith("isinstance(")]
+        rep.check(not extra, "SIB-2", "value convertibility is checked for every destination", "unconditional",
+                  "Property.merge_check tests the convertibility of the source values only if {%s}: for the other destinations the refusal comes "
+                  "from extend() in the middle of the merge, after attributes were filled" % ", ".join(extra), where(pc, n.ast),
+                  witness="non strict merge of ['unknown'] into an empty Property of dtype int: unit and definition are copied, then ValueError")
     rep.check(indep, "SIB-2", "value convertibility is checked regardless of strict", "ok",
               "the value convertibility refusal of Property.merge_check depends on `strict` (or vanished)", pc.where,
               witness="non-strict merge with unconvertible source values raises after attributes were filled")
